@@ -5108,6 +5108,10 @@ class TLSConnection(TLSRecordLayer):
         if hashAndAlgsExt is None or hashAndAlgsExt.sigalgs is None:
             # RFC 5246 states that if there are no hashes advertised,
             # sha1 should be picked
+            if certList and certList.x509List and \
+                    certList.x509List[0].certAlg in ("Ed25519", "Ed448"):
+                raise TLSHandshakeFailure("Client did not advertise "
+                                          "support for EdDSA")
             return "sha1", certList, private_key
 
         if check_alt:
